@@ -2026,10 +2026,10 @@ def get_p_th_nearest(df_filt: pd.DataFrame, p_est: str = 'p_est') -> float:
 
     # Estimate the threshold by where the order of the lines change.
     p_est_df = pd.DataFrame({
-        code: dict(df_filt[df_filt['code'] == code][[
+        n: dict(df_filt[df_filt['n'] == n][[
             'error_rate', p_est
         ]].values)
-        for code in code_df['code']
+        for n in code_df['n']
     })
     p_est_df = p_est_df.sort_index()
 
